@@ -177,3 +177,47 @@ impl MixedStaticImpl for MixedStaticTarget {
         a - b
     }
 }
+
+// the functions of one impl block need the SAME generic dependency trait at two different type arguments;
+// the dependency's own `Impl<T>` impl is conditional on `T` (an entraited generic trait), so a dropped bound shows
+#[entrait(unimock = false)]
+pub trait Decode<V: 'static> {
+    fn decode(&self, raw: &str) -> V;
+}
+#[entrait(ReportImpl, delegate_by = DelegateReport, unimock = false)]
+pub trait Report {
+    fn count(&self, raw: &str) -> u32;
+    fn label(&self, raw: &str) -> String;
+    fn both(&self, raw: &str) -> (u32, String);
+}
+pub struct ReportTarget;
+#[entrait]
+impl ReportImpl for ReportTarget {
+    fn count(deps: &impl Decode<u32>, raw: &str) -> u32 {
+        deps.decode(raw)
+    }
+    fn label(deps: &impl Decode<String>, raw: &str) -> String {
+        deps.decode(raw)
+    }
+    fn both<D>(deps: &D, raw: &str) -> (u32, String)
+    where
+        D: Decode<u32> + Decode<String>,
+    {
+        (deps.decode(raw), deps.decode(raw))
+    }
+}
+#[entrait(ReportDynImpl, delegate_by = ref, unimock = false)]
+pub trait ReportDyn {
+    fn count(&self, raw: &str) -> u32;
+    fn label(&self, raw: &str) -> String;
+}
+pub struct ReportDynTarget;
+#[entrait(ref)]
+impl ReportDynImpl for ReportDynTarget {
+    fn count(deps: &impl Decode<u32>, raw: &str) -> u32 {
+        deps.decode(raw)
+    }
+    fn label(deps: &impl Decode<String>, raw: &str) -> String {
+        deps.decode(raw)
+    }
+}
